@@ -466,7 +466,8 @@ class FileDownloader(Resource, object):
             if ranges is not None:
                 first, last = ranges[0]
 
-                if first >= filesize:
+                if first >= filesize or last < 0:
+                    # (last < 0: a suffix range on an empty file selects nothing)
                     raise WebError('First beyond end of file',
                                    http.REQUESTED_RANGE_NOT_SATISFIABLE)
                 else:
